@@ -29,12 +29,83 @@ OPN = {1: "history_backward", 2: "history_forward", 3: "go_to_history", 4: "auto
        11: "set_cursor_position", 12: "cursor_left", 13: "cursor_right", 14: "validate", 15: "accept",
        16: "reset", 17: "load_history_if_not_yet_loaded", 18: "population_step", 19: "population_all",
        20: "set_enable_history_search", 21: "append_to_history", 22: "new_session_same_backend",
-       23: "apply_search->(index,cursor)", 24: "apply_search", 25: "selection", 26: "loader_thread_step"}
+       23: "apply_search->(index,cursor)", 24: "apply_search", 25: "selection", 26: "loader_thread_step",
+       27: "key_handler"}
 NAV = (1, 2, 3, 4, 5, 6, 11, 12, 13, 20, 23, 25)
 HIST_STEP = (1, 2, 4, 5)
 EDIT = (7, 8, 9, 10)
 POP = (18, 19, 26)
 BIG = 10 ** 9
+
+# op 27 = [27, h, arg]: a real key handler called with a KeyPressEvent whose _arg is None ([]), "-" ([0]) or
+# the numeral str(z) ([1, z]).  h -> (where the handler lives, its function name, the oracle's own reading of the
+# Buffer call it makes, as a base operation, n = event.arg)
+HANDLERS = {
+    1: ("named", "previous-history", lambda n, a: [1, n]),
+    2: ("named", "next-history", lambda n, a: [2, n]),
+    3: ("named", "beginning-of-history", lambda n, a: [3, 0]),
+    4: ("named", "end-of-history", lambda n, a: [6]),
+    5: ("vi", "_go_up", lambda n, a: [4, n, 1]),                      # k
+    6: ("vi", "_go_down2", lambda n, a: [5, n, 1]),                   # j
+    7: ("vi", "_to_nth_history_line", lambda n, a: [3, n - 1]),       # <n>G (bound only with an argument)
+    8: ("vi", "_up_in_navigation", lambda n, a: [4, n, 0]),           # up / c-p in navigation mode
+    9: ("vi", "_go_down", lambda n, a: [5, n, 0]),                    # down / c-n in navigation mode
+    10: ("emacs", "_prev", lambda n, a: [4, n, 0]),                   # c-p
+    11: ("emacs", "_next", lambda n, a: [5, 1, 0]),                   # c-n: auto_down() without count
+    12: ("basic", "_go_up", lambda n, a: [4, n, 0]),                  # up
+    13: ("basic", "_go_down", lambda n, a: [5, n, 0]),                # down
+}
+HANDLER_NAMES = {1: "previous-history", 2: "next-history", 3: "beginning-of-history", 4: "end-of-history", 5: "vi:k", 6: "vi:j",
+                 7: "vi:G", 8: "vi:up", 9: "vi:down", 10: "emacs:c-p", 11: "emacs:c-n", 12: "basic:up", 13: "basic:down"}
+_HCACHE = {}
+
+
+def arg_string(a):
+    """wire argument -> KeyPressEvent._arg"""
+    if a == []:
+        return None
+    if a == [0]:
+        return "-"
+    return str(a[1])
+
+
+def oracle_arg(a):
+    """the oracle's own reading of KeyPressEvent.arg"""
+    if a == []:
+        return 1
+    if a == [0]:
+        return -1
+    return 1 if a[1] >= 1000000 else a[1]
+
+
+def find_handler(h):
+    """the real handler function; fails closed unless exactly one binding carries that function"""
+    if h in _HCACHE:
+        return _HCACHE[h]
+    where, name, _ = HANDLERS[h]
+    if where == "named":
+        from prompt_toolkit.key_binding.bindings.named_commands import get_by_name
+        fn = get_by_name(name).handler
+    else:
+        import importlib
+        mod = importlib.import_module("prompt_toolkit.key_binding.bindings." + where)
+        kb = getattr(mod, "load_%s_bindings" % where)()
+        fns = {}
+        for bd in kb.bindings:
+            if getattr(bd.handler, "__name__", None) == name:
+                fns[id(bd.handler)] = bd.handler
+        if len(fns) != 1:
+            raise RuntimeError("expected exactly one %s handler named %s, found %d" % (where, name, len(fns)))
+        fn = list(fns.values())[0]
+    _HCACHE[h] = fn
+    return fn
+
+
+def base_op(o):
+    """op 27 as the base operation the oracle judges it as"""
+    if o[0] != 27:
+        return o
+    return HANDLERS[o[1]][2](oracle_arg(o[2]), o[2])
 
 
 # --------------------------------------------------------------------------
@@ -277,8 +348,9 @@ async def settle_threaded(b, h, ctl, track):
     return False
 
 
-async def impl_buffer_case(case, slow=False, file_backend=False, threaded=False):
-    """-> list of snapshots, one per observed op.  slow: the validator's
+async def impl_buffer_case(case, slow=False, file_backend=False, threaded=False, history=None):
+    """-> list of snapshots, one per observed op.  history: a History object made by the caller
+    (shared-start-up-list family) instead of a new one.  slow: the validator's
     validate_async is gated; the gate is closed while operations flagged
     "deferred" run (their scheduled validation starts but stays in flight) and
     opened after every other operation until everything has settled."""
@@ -304,7 +376,9 @@ async def impl_buffer_case(case, slow=False, file_backend=False, threaded=False)
         fh = FileHistory(path)
         for x in storage:
             fh.store_string(unS(x))
-    if threaded:
+    if history is not None:
+        h = history
+    elif threaded:
         h = make_threaded_history([unS(x) for x in storage], path, ctl)
     else:
         h = make_history([unS(x) for x in storage], path)
@@ -392,6 +466,14 @@ async def impl_buffer_case(case, slow=False, file_backend=False, threaded=False)
                             h = make_history(storage_of(h), path)
                         b.history = h
                         b.reset()
+                    elif k == 27:
+                        # a real key handler with a real KeyPressEvent.arg computed from _arg
+                        from prompt_toolkit.key_binding.key_processor import KeyPressEvent
+                        ev = make_event(b)
+                        ev._arg = arg_string(op[2])
+                        ev.arg = KeyPressEvent.arg.fget(ev)
+                        ev.arg_present = ev._arg is not None
+                        find_handler(op[1])(ev)
                     elif k == 24:
                         # incremental-search landing: the search itself is C16's; what it found is
                         # recorded in the case (op 23) and applied by the real apply_search
@@ -429,6 +511,18 @@ async def impl_buffer_case(case, slow=False, file_backend=False, threaded=False)
                 b._load_history_task.cancel()
             await spin(3)
     return out
+
+
+async def impl_shared_pair(a, b):
+    """Two sessions whose InMemoryHistory objects are constructed from ONE start-up list owned by the caller
+    (`seed`): session A runs, then session B.  -> (snapshots of A, snapshots of B, the caller's list afterwards,
+    A's stored history after B ran)"""
+    seed = [unS(x) for x in a[0]]
+    ha = make_history(seed)
+    hb = make_history(seed)
+    ra = await impl_buffer_case(a, history=ha)
+    rb = await impl_buffer_case(b, history=hb)
+    return ra, rb, [S(x) for x in seed], [S(x) for x in storage_of(ha)]
 
 
 # ---- session level --------------------------------------------------------
@@ -651,6 +745,7 @@ def text_has_passing_cursor(rules, text):
 def oracle_case(case, results):
     """yields (clause, family, opname, detail) for every violated clause"""
     storage, ehs0, vwt, keep, rules, ops = case[:6]
+    ops = [[f, base_op(o)] for f, o in ops]
     threaded = len(case) > 6 and bool(case[6])
     init = [0, None, [[]], 0, 0, None, None, 0, [], list(storage)]
     obs = [i for i, (f, o) in enumerate(ops) if f & 1]
@@ -723,9 +818,11 @@ def oracle_case(case, results):
         if single and last and k == 2 and last[0][0] == 1 and last[0][1] == op[1] and st == 0 and ehs and ehs_before:
             b0 = last[1]
             kk = op[1]
-            if b0[5] is None and kk >= 0 and 0 <= b0[3] < len(b0[2]) and last[2][0] == 0 and 0 <= b0[4] <= len(b0[2][b0[3]]):
-                p0 = b0[2][b0[3]][:b0[4]]
-                nmatch = sum(1 for e in b0[2][:b0[3]] if starts(e, p0))
+            if kk >= 0 and 0 <= b0[3] < len(b0[2]) and last[2][0] == 0 and 0 <= b0[4] <= len(b0[2][b0[3]]):
+                # the prefix: the captured search text, else the text before the cursor (theorem C14_back_forth_prefix:
+                # the displayed entry has to start with it, which is automatic when nothing is captured yet)
+                p0 = b0[5][0] if b0[5] is not None else b0[2][b0[3]][:b0[4]]
+                nmatch = sum(1 for e in b0[2][:b0[3]] if starts(e, p0)) if starts(b0[2][b0[3]], p0) else -1
                 if kk <= nmatch and (wi != b0[3] or text1 != b0[2][b0[3]] or wl != b0[2]):
                     yield ("back_forth: with prefix search %r, back %d then forward %d from entry %d of %d ended at entry %d"
                            % (unS(p0), kk, kk, b0[3], len(b0[2]), wi),
@@ -844,6 +941,12 @@ def rand_count(rng):
 
 def rand_buffer_op(rng, loaded):
     r = rng.random()
+    if r < 0.04:
+        hnd = rng.choice(sorted(HANDLERS))
+        a = rng.choice([[], [], [0], [1, 0], [1, 1], [1, 2], [1, 3], [1, 5], [1, -1], [1, 1000000]])
+        if hnd == 7 and a == []:
+            a = [1, 2]
+        return [27, hnd, a]
     if r < 0.34:
         k = rng.choice([1, 1, 2, 2, 4, 4, 4, 5, 5, 5])
         if k in (1, 2):
@@ -926,6 +1029,21 @@ def gen_buffer_cases(chk):
                 for vwt in (0, 1):
                     add("back_forth", [S(x) for x in hh], 0, vwt, 0, [] if vwt else None,
                         [[17], [19], [3, start], [1, k], [2, k]])
+    # 2b. back k / forward k WITH prefix search: every start entry x typed/recalled prefix (cursor position) x k
+    for hh in (["a", "ab", "b", "abc"], ["ab", "b", "ab", "a", "abc"], ["a\nb", "a", "b", "a\nc"]):
+        for start in range(len(hh) + 1):
+            for typed in (None, "", "a", "ab", "b"):
+                if typed is not None and start != len(hh):
+                    continue
+                curs = (None,) if typed is not None else (0, 1, 2)
+                for cpos in curs:
+                    for k in (0, 1, 2, 3, 4):
+                        pre = [[17], [19], [3, start]]
+                        if typed is not None:
+                            pre.append([10, S(typed)])
+                        else:
+                            pre.append([11, cpos])
+                        add("back_forth_prefix", [S(x) for x in hh], 1, 0, 0, None, pre + [[1, k], [2, k], [1, k], [2, k]])
     # 3. accept: validators x texts x reported positions x loaded or not
     for text in ("", "a", "ab", "a\nb"):
         for pos in POSITIONS:
@@ -963,6 +1081,19 @@ def gen_buffer_cases(chk):
                         ops.append(navs[j])
                 ops += [[19], [4, 1, 0]]
                 add("population_interleaved", [S(x) for x in hh], ehs, 0, 0, None, ops)
+    # 4b. key handlers with numeric arguments: every handler x every kind of argument x start index
+    ARGS = [[], [0], [1, 0], [1, 1], [1, 2], [1, 3], [1, -2], [1, 7], [1, 999999], [1, 1000000], [1, 12345678]]
+    for hh in (["a", "b"], ["ab", "b", "a", "abc"], ["a\nb", "a", "a\nb"]):
+        for start in sorted(set([0, 1, len(hh)])):
+            for hnd in sorted(HANDLERS):
+                for a in ARGS:
+                    if hnd == 7 and a == []:
+                        continue
+                    for ehs in (0, 1):
+                        if ehs and (a not in ([], [1, 2], [0]) or start != len(hh)):
+                            continue
+                        add("key_handlers_with_arg", [S(x) for x in hh], ehs, 0, 0, None,
+                            [[17], [19], [3, start]] + ([[7, S("a")]] if ehs else []) + [[27, hnd, a], [27, 2, a], [27, hnd, [1, 1]]])
     # 5. random sessions
     nrand = 8000 if thorough else 1500
     for _ in range(nrand):
@@ -978,6 +1109,41 @@ def gen_buffer_cases(chk):
 
 ADV_TEXTS = ["ok", "echo hi\n", "\n", "a\n\nb", "a\r", "t\r\n", "b\x0bc", "x\x0c", "p\x1cq", "\x1d", "m\x1e",
              "n\x85o", "u\u2028v", "w\u2029", "if x:\n    y", " lead", "trail ", "+plus", "# hash", ""]
+
+
+def gen_shared_cases(chk):
+    """Pairs of sessions whose histories are built from one shared start-up list (an application that keeps
+    its list of start-up entries and makes an InMemoryHistory per session/tab from it).  Histories are separate
+    objects: what session A accepts is appended to A's history exactly once - and to nothing else."""
+    rng = chk.rng
+    thorough = chk.tier == "thorough"
+    pairs = []
+    for hh in ([], ["one"], ["one", "two"], ["a", "ab", "a\nb"]):
+        st = [S(x) for x in hh]
+        for t in ("alpha", "two", "a\nb"):
+            a_scripts = ([[17], [19], [10, S(t)], [15]],                      # load, type, accept
+                         [[10, S(t)], [15], [17], [19], [4, 1, 0]],            # accept before loading, then browse
+                         [[17], [19], [4, 1, 0], [7, S(t)], [15], [16, S(""), 0, 0], [17], [19], [4, 1, 0], [15]])
+            b_scripts = ([[17], [19], [4, 1, 0], [15]],                        # one step up, accept
+                         [[17], [19], [1, 1], [1, 1], [2, 1], [6]],            # browse only
+                         [[10, S("beta")], [15], [17], [19], [4, 1, 0], [4, 1, 0]])
+            for sa in a_scripts:
+                for sb in b_scripts:
+                    pairs.append(([st, 0, 0, 0, None, fl(sa)], [st, 0, 0, 0, None, fl(sb)]))
+    for _ in range(300 if thorough else 40):
+        st = rand_storage(rng)
+        both = []
+        for _ in range(2):
+            ops = [[17], [19]] if rng.random() < 0.7 else []
+            for _ in range(rng.randint(2, 14)):
+                o = rand_buffer_op(rng, True)
+                if o[0] == 15 or rng.random() < 0.15:
+                    ops.append([10, S(rng.choice(TYPE_POOL + HIST_POOL))])
+                    o = [15]
+                ops.append(o)
+            both.append([st, rng.randint(0, 1), rng.randint(0, 1), rng.randint(0, 1), rand_rules(rng), fl(ops)])
+        pairs.append((both[0], both[1]))
+    return pairs
 
 
 def gen_file_cases(chk):
@@ -1044,6 +1210,15 @@ def gen_threaded_cases(chk):
                 cases.append([st, 0, 0, keep, None, fl(ops), kind])
                 # accept before anything is loaded
                 cases.append([st, 0, 0, keep, None, fl([[10, S("x")], [15]] + nxt + [[26]] * (len(storage) + 2) + [[10, S("x")], [15]]), kind])
+    # back k / forward k with entries arriving from the loader thread in between (with and without prefix search)
+    for storage in (["a", "ab", "b", "abc", "a"], ["b", "a", "ab"]):
+        st = [S(x) for x in storage]
+        for ehs in (0, 1):
+            for nloaded in range(1, len(storage) + 1):
+                for k in (1, 2):
+                    for mid in (0, 1, 2):
+                        ops = [[17]] + [[26]] * nloaded + [[10, S("a")] if ehs else [10, S("zz")], [1, k]] + [[26]] * mid + [[2, k]] + [[26]] * 2 + [[1, k], [2, k]]
+                        cases.append([st, ehs, 0, 0, None, fl(ops), 1])
     for _ in range(500 if thorough else 70):
         ops = []
         for _ in range(rng.randint(4, 22)):
@@ -1196,13 +1371,16 @@ def gen_session_scripts(chk):
 
 
 MALFORMED = [[], [[], 0, 0, 0, None], [[], 0, 0, 0, None, [[1, [99]]]], [[], 0, 0, 0, None, [[7, [1, 1]]]],
-             [[], 0, 0, 0, [[[[9], [0, 0]]]], []], [[], 0, 0, 0, None, [[1, [16, [97], 5, 0]]]], [[5], 0, 0, 0, None, []]]
+             [[], 0, 0, 0, [[[[9], [0, 0]]]], []], [[], 0, 0, 0, None, [[1, [16, [97], 5, 0]]]], [[5], 0, 0, 0, None, []],
+             [[], 0, 0, 0, None, [[1, [27, 99, []]]]], [[], 0, 0, 0, None, [[1, [27, 7, []]]]], [[], 0, 0, 0, None, [[1, [27, 1, [2]]]]]]
 
 
 # --------------------------------------------------------------------------
 
 def fmt_ops(ops, n=8):
     def one(o):
+        if o[0] == 27:
+            return "key_handler(%s,arg=%r)" % (HANDLER_NAMES.get(o[1], o[1]), arg_string(o[2]))
         a = []
         for x in o[1:]:
             a.append(repr(unS(x)) if isinstance(x, list) else str(x))
@@ -1228,10 +1406,14 @@ def run_impl(runner, level, item):
             return item, runner.run(lambda: impl_buffer_case(item, file_backend=True))
         if level == "buffer-threaded":
             return item, runner.run(lambda: impl_buffer_case(item, threaded=True, file_backend=bool(item[6] == 2)), 30)
+        if level == "buffer-shared":
+            return item, runner.run(lambda: impl_shared_pair(item[0], item[1]), 20)
         if level == "session-threaded":
             return runner.run(lambda: impl_session_case(item, threaded=True), 30)
         return runner.run(lambda: impl_session_case(item), 20)
     except Hang:
+        if level == "buffer-shared":
+            return item, ([["HANG"]], [["HANG"]], None, None)
         if level in ("buffer", "buffer-slow", "buffer-file", "buffer-threaded"):
             return item, [["HANG"]]
         return [item[0], item[1], item[2], 1, item[3] if item[3] is not None else [], []] + ([1] if level == "session-threaded" else []), [["HANG"]]
@@ -1269,6 +1451,23 @@ def main(tier):
         cases.append(case); results.append(res); levels.append("buffer-threaded")
     dist["threaded_history_sessions"] = len(tcases)
     cleanup_history_files()
+    shared = gen_shared_cases(chk)
+    partner = {}
+    shared_bad = []
+    for a, b in shared:
+        _, (ra, rb, seed_after, a_after) = run_impl(runner, "buffer-shared", (a, b))
+        ia = len(cases)
+        cases.append(a); results.append(ra); levels.append("buffer-shared")
+        cases.append(b); results.append(rb); levels.append("buffer-shared")
+        partner[ia] = (b, "A")
+        partner[ia + 1] = (a, "B")
+        if seed_after is not None and seed_after != a[0]:
+            shared_bad.append((ia, "accept: the list of start-up entries the histories were constructed from was modified: %r -> %r"
+                               % ([unS(x) for x in a[0]], [unS(x) for x in seed_after]), "caller-list"))
+        if a_after is not None and ra and ra[-1] != ["HANG"] and a_after != ra[-1][9] and all(f & 1 for f, o in a[5]):
+            shared_bad.append((ia, "browse_pure: the stored history of session A changed while only session B ran: %r -> %r"
+                               % ([unS(x) for x in ra[-1][9]], [unS(x) for x in a_after]), "other-session"))
+    dist["shared_startup_list_pairs"] = len(shared)
     scases = gen_slow_cases(chk)
     for c in scases:
         case, res = run_impl(runner, "buffer-slow", c)
@@ -1292,6 +1491,19 @@ def main(tier):
 
     oracle_bad = set()
     opcount = {}
+
+    def rep_of(i, **kw):
+        d = {"case": wire(cases[i]), "level": levels[i]}
+        if i in partner:
+            d["shared_with"] = wire(partner[i][0])
+            d["role"] = partner[i][1]
+        d.update(kw)
+        return d
+    for ia, what, fam in shared_bad:
+        oracle_bad.add(ia)
+        chk.violation("oracle", "%s | session A: %s | session B: %s" % (what, describe_case(cases[ia]), describe_case(cases[ia + 1])),
+                      {"clause": what.split(":")[0], "family": "shared-startup-list/" + fam, "op": "accept"},
+                      rep_of(ia, clause=what))
     for i, (case, res) in enumerate(zip(cases, results)):
         if res and res[0] == ["HANG"]:
             chk.violation("oracle", "implementation hangs: " + describe_case(case), {"family": "hang", "level": levels[i]},
@@ -1304,11 +1516,16 @@ def main(tier):
             opcount[OPN[o[0]]] = opcount.get(OPN[o[0]], 0) + 1
         for clause, fam, opname, detail in oracle_case(case, res):
             oracle_bad.add(i)
-            chk.violation("oracle", "%s | %s" % (clause, describe_case(case)),
+            shared_note = ""
+            if i in partner:
+                fam = "shared-startup-list/" + fam
+                shared_note = " | session %s of a pair built from one start-up list; the other session: %s" % (
+                    partner[i][1], describe_case(partner[i][0]))
+            chk.violation("oracle", "%s | %s%s" % (clause, describe_case(case), shared_note),
                           {"clause": clause.split(":")[0], "family": fam, "op": opname},
-                          {"case": wire(case), "level": levels[i], "clause": clause, "detail": detail,
-                           "how": "./check --replay re-runs the case at its level (buffer*: real Buffer + gated history, "
-                                  "session*: real PromptSession, keys rebuilt from the operations)"})
+                          rep_of(i, clause=clause, detail=detail,
+                           how= "./check --replay re-runs the case at its level (buffer*: real Buffer + gated history, "
+                                  "session*: real PromptSession, keys rebuilt from the operations)"))
         if i % 499 == 0:
             chk.sample({"level": levels[i], "case": describe_case(case), "last_observed": res[-1] if res else None})
     dist["ops"] = opcount
@@ -1358,15 +1575,19 @@ def main(tier):
         "population steps among 4 navigation steps; random sessions over all 21 operations. Session level: random key scripts "
         "(up/down/C-up/C-down/PageUp/PageDown/Left/Right/Backspace/Esc-digit/Esc-</Esc->/characters/Enter, type-ahead keys) over "
         "1-4 consecutive prompt_async() calls on one PromptSession. non-trivial = some observed state has working_index != 0 or "
-        "more than one working line; distinct by hash of the whole case. Plus a slow-validator family at buffer level (validate_async gated, validations in flight across edits/navigation/accept)." % (4 if chk.tier == "thorough" else 3, POSITIONS))
+        "more than one working line; distinct by hash of the whole case. Plus a slow-validator family at buffer level (validate_async gated, validations in flight across edits/navigation/accept); "
+        "round 6: every history-related key handler (4 named commands, vi k/j/<n>G/up/down, emacs c-p/c-n, basic up/down) x 11 numeric arguments (none, '-', 0, 1, 2, 3, -2, 7, 999999, 1000000, 12345678) x 3 histories x start index; "
+        "148 / 408 pairs of sessions whose InMemoryHistory objects are built from one shared start-up list (caller's list and the other session's storage inspected)." % (4 if chk.tier == "thorough" else 3, POSITIONS))
     chk.assumptions += [
-        "completion state is absent (auto_up/auto_down never take their complete_previous/complete_next branch); selection state is a flag; read-only buffers, undo stack, events, yank-nth-arg/yank-last-arg are outside the model",
+        "completion state is absent (auto_up/auto_down never take their complete_previous/complete_next branch: still open); selection state is a flag; read-only buffers, undo stack, events, yank-nth-arg/yank-last-arg are outside the model",
         "a validate-while-typing run scheduled by an operation completes before the next operation unless that operation is flagged deferred (type-ahead batches; slow-validator family where validate_async waits at a gate while later operations run); thread-level asynchrony (ThreadedValidator) is outside",
         "history backends: the model's storage is an abstract list (exact round trip); InMemoryHistory and a real FileHistory (storage = what a new FileHistory reads back) are run against it; the gated histories delegate every item to History.load()",
         "ThreadedHistory model: the loader thread's snapshot of the backend is taken when load() first runs, and thread step / consumer chunk / append_string are atomic and occur in the order the harness chooses (a semaphore in the inner load_history_strings and quiescence waits enforce that order on the real object); the real generator takes its snapshot a little later, inside the thread, so an append racing with the thread's start is not explored (C13's subject)",
-        "theorems about navigation/edits/prefix/back-forth/reset are proved for the InMemoryHistory/FileHistory kind (thr = false); for ThreadedHistory the proved statements are coherence, append-once once anything is loaded, population safety and the cached-verdict invariant; the other clauses are checked for it by correspondence and oracle only",
+        "since round 6 the theorems about navigation/edits/prefix/back-forth (with and without prefix search)/reset hold for either kind of History object (no thr hypothesis: entries delivered by the ThreadedHistory consumer are prepended and shift the index); still for the InMemoryHistory/FileHistory kind only: C14_reset_clean (uninterrupted pop_all; the ThreadedHistory counterpart is C14_reset_clean_threaded), C14_new_session_clean, C14_recall_next_session, C14_append_once/C14_accept_history (ThreadedHistory: C14_append_once_threaded, known finding C14-F3)",
+        "key handlers with a numeric argument (op 27): the real handler function (named command, or the unique binding of load_vi_bindings/load_emacs_bindings/load_basic_bindings carrying that function) is called with an event whose arg is computed by the real KeyPressEvent.arg from _arg; the model's handler_op table (which Buffer call each handler makes) is hand-written and checked by this correspondence only; vi-mode key SEQUENCES (Escape, operators) are not driven through a PromptSession",
+        "two sessions constructed from one start-up list (shared_startup_list_pairs): the model has no aliasing - every History object owns its storage; the harness runs session A then session B on two gated InMemoryHistory objects built from the same Python list and also inspects that list and A's storage afterwards",
         "the validator is an arbitrary function (text, cursor) -> option position in the theorems; the harness instantiates it with rule lists",
-        "vi-mode keys are exercised only through Buffer.auto_up/auto_down(go_to_start_of_line_if_history_changes=True) and go_to_history at buffer level",
+        "vi-mode keys k, j, <n>G, up, down are exercised through their real handler functions at buffer level (op 27), not through key sequences of a vi-mode PromptSession",
     ]
     return chk.finish()
 
@@ -1375,7 +1596,7 @@ def infer_level(w, given=None):
     """level of a replayed case: recorded by oracle violations; for model/implementation differences it is
     inferred (a session case starts with an unobserved reset; the 7th element says ThreadedHistory)"""
     thr = len(w) > 6 and bool(w[6])
-    if given in ("buffer", "buffer-slow", "buffer-file", "buffer-threaded", "session", "session-threaded"):
+    if given in ("buffer", "buffer-slow", "buffer-file", "buffer-threaded", "buffer-shared", "session", "session-threaded"):
         return given
     sessionlike = bool(w[5]) and w[5][0][0] == 2 and w[5][0][1][0] == 16
     if sessionlike:
@@ -1432,7 +1653,21 @@ def replay(data):
     w = rep["case"]
     lvl = infer_level(w, rep.get("level"))
     runner = Runner()
-    if lvl.startswith("session"):
+    unw = lambda x: [x[0], x[1], x[2], x[3], (x[4][0] if x[4] else None), x[5]] + ([x[6]] if len(x) > 6 else [])
+    if lvl == "buffer-shared" and rep.get("shared_with"):
+        case, other = unw(w), unw(rep["shared_with"])
+        a, b = (case, other) if rep.get("role") == "A" else (other, case)
+        print("level buffer-shared: two InMemoryHistory objects constructed from ONE start-up list; session A runs, then session B;"
+              " the replayed case is session %s" % rep.get("role"))
+        print("session A: " + describe_case(a))
+        print("session B: " + describe_case(b))
+        _, (ra, rb, seed_after, a_after) = run_impl(runner, lvl, (a, b))
+        res = ra if rep.get("role") == "A" else rb
+        print("the caller's start-up list afterwards: %r (was %r)" % (None if seed_after is None else [unS(x) for x in seed_after], [unS(x) for x in a[0]]))
+        print("session A's stored history after session B ran: %r" % (None if a_after is None else [unS(x) for x in a_after],))
+        if seed_after is not None and seed_after != a[0]:
+            print("ORACLE FAILS: the start-up list was modified [shared-startup-list/caller-list]")
+    elif lvl.startswith("session"):
         script = script_from_case(w)
         print("level %s: keys rebuilt from the operations: %r" % (lvl, script[4]))
         case, res = run_impl(runner, lvl, script)
